@@ -348,6 +348,9 @@ def build_request(ex, meta):
     }
     if ex.get("rename_calls"):
         r["rename_calls"] = ex["rename_calls"]
+    if "rename_calls" in o:
+        # user option rename_calls=FROM:TO,..: a call is directed to a differently named stand-in (same arguments)
+        r["rename_calls"] = dict(r.get("rename_calls") or {}, **dict(x.split(":", 1) for x in o["rename_calls"].split(",")))
     if "trait" in o:
         r["trait"] = o["trait"]
     if "derive" in o:
